@@ -28,6 +28,7 @@ import (
 	"math/big"
 	"os"
 	"path/filepath"
+	"regexp"
 	"runtime"
 	"sort"
 	"strings"
@@ -140,11 +141,46 @@ func base(n string) Blob { return Blob{Base: n} }
 func patched(n string, ps ...Patch) Blob { return Blob{Base: n, Patch: ps} }
 func P(off, del int, ins []byte) Patch { return Patch{off, del, hex.EncodeToString(ins)} }
 
+// Byte strings of 16..64 bytes recur in many cases (digests, keys): they are emitted as tokens and, once all
+// cases are known, either named in the shard header (3 or more uses) or inlined.  Parsing a numeral costs Coq
+// about 0.1 ms per byte, which dominated the evaluation time.
+var (
+	internMu    sync.Mutex
+	internCount = map[string]int{}
+	internRe    = regexp.MustCompile(`@@([0-9a-f]+)@@`)
+)
+
+func hxLit(h string) string { return fmt.Sprintf("(hx %d 0x%s)", len(h)/2, h) }
+
 func hxBytes(b []byte) string {
 	if len(b) == 0 {
 		return "(hx 0 0)"
 	}
-	return fmt.Sprintf("(hx %d 0x%s)", len(b), hex.EncodeToString(b))
+	h := hex.EncodeToString(b)
+	if len(b) < 16 {
+		return hxLit(h)
+	}
+	internMu.Lock()
+	internCount[h]++
+	internMu.Unlock()
+	return "@@" + h + "@@"
+}
+
+// resolveInterned replaces the tokens; named constants are appended to defs in first-use order.
+func resolveInterned(s string, names map[string]string, defs *[]string) string {
+	return internRe.ReplaceAllStringFunc(s, func(t string) string {
+		h := t[2 : len(t)-2]
+		if internCount[h] < 3 {
+			return hxLit(h)
+		}
+		n, ok := names[h]
+		if !ok {
+			n = fmt.Sprintf("i_%d", len(names))
+			names[h] = n
+			*defs = append(*defs, fmt.Sprintf("Definition %s : bytes := Eval vm_compute in %s.\n", n, hxLit(h)))
+		}
+		return n
+	})
 }
 
 func coqBytes(b []byte) string {
@@ -700,6 +736,7 @@ func evaluate(c CaseD) (res result) {
 	var pckCerts []*x509.Certificate
 	var pckFmspc []byte
 	pckChain := false
+	var okQuoteSig, okQeSig, okBind, okTiSig, okQiSig bool
 	if r.ok {
 		res.nontriv = res.code == 0 || res.code >= 20
 		qeDigest := addSha(r.qeReport)
@@ -707,8 +744,10 @@ func evaluate(c CaseD) (res result) {
 		qDigest := addSha(append(append([]byte{}, r.header...), r.body...))
 		if apk, err := ecdsa.ParseUncompressedPublicKey(elliptic.P256(), append([]byte{4}, r.attkey...)); err == nil {
 			akv = append(akv, fmt.Sprint(fp(r.attkey)))
-			addEcdsa(apk, qDigest, r.sig)
+			okQuoteSig = addEcdsa(apk, qDigest, r.sig)
 		}
+		bind := sha256.Sum256(append(append([]byte{}, r.attkey...), r.auth...))
+		okBind = bytes.Equal(r.qeReport[320:352], bind[:]) && bytes.Equal(r.qeReport[352:384], make([]byte, 32))
 		if r.tee == 0x81 && len(r.body) == 584 {
 			m := append(append([]byte{}, r.body[136:184]...), r.body[328:520]...)
 			h := tuplehash.New256(32, []byte(pcs.TdEnclaveIdentityContext))
@@ -738,7 +777,7 @@ func evaluate(c CaseD) (res result) {
 								sv = append(sv, int64(x))
 							}
 							info = fmt.Sprintf("PckOk (mkPck %s %s %s %d)", coqBytes(pkBytes(pi.PublicKey)), hxBytes(pi.FMSPC), zlist(sv), pi.PCESVN)
-							addEcdsa(pi.PublicKey, qeDigest, r.qeSig)
+							okQeSig = addEcdsa(pi.PublicKey, qeDigest, r.qeSig)
 						case strings.Contains(perr.Error(), "non-ECDSA"):
 							info = "PckBadKey"
 						}
@@ -765,10 +804,10 @@ func evaluate(c CaseD) (res result) {
 	tiDigest := addSha(ti)
 	qiDigest := addSha(qi)
 	if s, err := hex.DecodeString(string(tiSig)); err == nil && len(s) == 64 {
-		addEcdsa(tcbPk, tiDigest, s)
+		okTiSig = addEcdsa(tcbPk, tiDigest, s)
 	}
 	if s, err := hex.DecodeString(string(qiSig)); err == nil && len(s) == 64 {
-		addEcdsa(tcbPk, qiDigest, s)
+		okQiSig = addEcdsa(tcbPk, qiDigest, s)
 	}
 	tif := parseTCBInfo(ti)
 	qif := parseQEID(qi)
@@ -869,8 +908,37 @@ func evaluate(c CaseD) (res result) {
 		if !pckChain || !tcbChain {
 			v("accepted although a certificate chain does not verify at the given time")
 		}
+		for _, x := range []struct {
+			ok bool
+			n  string
+		}{{okQeSig, "the QE report is not signed by the PCK key"}, {okBind, "the QE report data does not bind the attestation key and authentication data"},
+			{okQuoteSig, "header||report body is not signed by the attestation key"}, {okTiSig, "the TCB info is not signed by the TCB signing key"},
+			{okQiSig, "the QE identity is not signed by the TCB signing key"}} {
+			if !x.ok {
+				v("accepted although %s", x.n)
+			}
+		}
+		if want := expectedOutput(r); want != nil && !(bytes.Equal(want[0], res.out[0]) && bytes.Equal(want[1], res.out[1]) && bytes.Equal(want[2], res.out[2])) {
+			v("verified identity/report data are not the ones in the signed report body")
+		}
 	}
 	return res
+}
+
+// expectedOutput recomputes (MRENCLAVE, MRSIGNER, report data) from the located report body.
+func expectedOutput(r regions) *[3][]byte {
+	if !r.ok {
+		return nil
+	}
+	if r.tee == 0x81 {
+		h := tuplehash.New256(32, []byte(pcs.TdEnclaveIdentityContext))
+		_, _ = h.Write(r.body[136:184])
+		for i := 0; i < 4; i++ {
+			_, _ = h.Write(r.body[328+48*i : 376+48*i])
+		}
+		return &[3][]byte{h.Sum(nil), make([]byte, 32), r.body[520:584]}
+	}
+	return &[3][]byte{r.body[64:96], r.body[128:160], r.body[320:384]}
 }
 
 func stageName(code int) string {
@@ -1581,11 +1649,26 @@ func main() {
 		wg.Wait()
 	}
 
-	wb := coqout.NewWriter(*out, headerText(), "run_obs", "obs_eqb", max(50, (len(cases)+11)/12))
+	// interleave so that every shard gets the same mix of cheap and expensive cases
+	const nShards = 12
+	order := make([]int, 0, len(cases))
+	for s := 0; s < nShards; s++ {
+		for i := s; i < len(cases); i += nShards {
+			order = append(order, i)
+		}
+	}
+	names, defs := map[string]string{}, []string{}
+	for i := range results {
+		results[i].term = resolveInterned(results[i].term, names, &defs)
+	}
+	hdr := resolveInterned(headerText(), names, &defs)
+	hdr = strings.Replace(hdr, "\n", "\n"+strings.Join(defs, ""), 1) // after the Require line
+	wb := coqout.NewWriter(*out, hdr, "run_obs", "obs_eqb", max(50, (len(cases)+nShards-1)/nShards))
 	sum := coqout.NewSummary("known-good SGX (v3) and TDX (v4) quotes with their collateral from go/common/sgx/pcs/testdata plus two rejected vectors: stratified single-bit mutants of the raw quote over every region, multi-byte mutants (overwrite/copy/truncate/trailing/unread slack), textual field edits and bit flips of TCB info / QE identity / signatures / PEM chains, reordered and foreign chains, foreign validly-signed collateral, verification times at and around (+-1ns, +-1s) every issueDate / issueDate+period / nextUpdate / certificate notBefore / notAfter for several validity periods, policy settings (nil, disabled, min evaluation number around the bundle's, white/blacklists incl. case variants, TDX nil/{}/module lists), process switches (debug, lax); synthetic bundles signed under a harness trust root with varied TCB levels/statuses/QE identities/dates; non-trivial = the quote parses and verification proceeds past the policy switch; distinct = distinct case descriptions")
 	seen := map[string]bool{}
 	obsCount := map[string]int{}
-	for i, c := range cases {
+	for n, i := range order {
+		c := cases[i]
 		r := results[i]
 		key, _ := json.Marshal(c)
 		if r.nontriv && !seen[string(key)] {
@@ -1605,7 +1688,7 @@ func main() {
 				sum.Extra["observation:"+o] = map[string]any{"first_case": c}
 			}
 		}
-		if i%97 == 0 {
+		if n%97 == 0 {
 			sum.Sample(map[string]any{"fam": c.Fam, "note": c.Note, "verdict": r.stage}, 6)
 		}
 		if r.code != 998 {
